@@ -234,11 +234,18 @@ pub(crate) fn a_cas(a: &AtomicU64, cur: u64, new: u64, _s: Ordering, _f: Orderin
 // ------------------------------------------------------------------------------------------------
 // EBR entry points (A-EBR) and callee recorders
 // ------------------------------------------------------------------------------------------------
-pub(crate) fn s_global_epoch() -> usize { unsafe { EPOCH_READS += 1; EPOCH_READ } }
+pub(crate) fn s_global_epoch() -> usize { unsafe { EPOCH_READS += 1; if CS_ENTERED == 0 && !GUARD_GIVEN { EPOCH_READS_UNPINNED += 1; } EPOCH_READ } }
+/// critical sections entered by the function under contract so far / a caller's guard was passed in
+pub(crate) static mut CS_ENTERED: u32 = 0;
+pub(crate) static mut GUARD_GIVEN: bool = false;
+/// epoch reads made while the calling thread was NOT in a critical section: such a value can be
+/// arbitrarily stale by the time it is published (C02: "every delay of a thread between reading the
+/// epoch and publishing a counter update"); a pinned thread lags the clock by at most one.
+pub(crate) static mut EPOCH_READS_UNPINNED: u32 = 0;
 /// `incr_manual_collection` only schedules collections (liveness); it never touches an object.
 pub(crate) fn s_incr_manual_collection(_g: &Guard) { unsafe { MANUAL_EVENTS += 1; } }
 pub(crate) static mut MANUAL_EVENTS: u32 = 0;
-pub(crate) fn s_cs() -> Guard { Guard { local: core::ptr::null() } }
+pub(crate) fn s_cs() -> Guard { unsafe { CS_ENTERED += 1; } Guard { local: core::ptr::null() } }
 /// Contract of `Guard::defer_unchecked` (A-EBR): the closure is stored and will run exactly once
 /// later.  To learn WHAT was deferred the closure is run against the recording callees below.
 pub(crate) unsafe fn s_defer_unchecked<F, R>(_g: &Guard, f: F) where F: FnOnce() -> R {
@@ -475,7 +482,9 @@ unsafe fn decrement_strong_contract(with_guard: bool) {
     let others = L.o - count;
     BUDGET = budget();
     let g = s_cs();
+    CS_ENTERED = 0; GUARD_GIVEN = with_guard;
     RcInner::decrement_strong(p, count, if with_guard { Some(&g) } else { None });
+    assert!(EPOCH_READS_UNPINNED == 0, "C02.dec.stamped_epoch_is_read_inside_a_critical_section");
     assert!(STEPS == 1, "C01.dec.exactly_one_step");
     assert!(MY.o == 0, "C01.dec.releases_exactly_count");
     let hit_zero = State::from_raw(LIN_WORD).strong() == count;
